@@ -1,17 +1,25 @@
 package c01
 
 import (
+	"encoding/json"
 	"fmt"
 	"os"
+	"path/filepath"
 	"sort"
 	"strings"
 	"testing"
 
 	"pgregory.net/rapid"
+
+	"verif/gmodel"
+	"verif/pgsim"
+	"verif/qcase"
+	"verif/xlate"
 )
 
-// TestC01Triage is a development aid (VERIF_TRIAGE=1): run many cases, do not stop at the first
-// disagreement, cluster the disagreements and skips.
+// TestC01Triage is a development aid (VERIF_TRIAGE=1|short): run many cases, do not stop at the first
+// disagreement, cluster the disagreements and skips. With VERIF_TRIAGE_OUT=<dir> one (graph-minimised)
+// case per cluster is written there as JSON for TestC01One.
 func TestC01Triage(t *testing.T) {
 	if os.Getenv("VERIF_TRIAGE") == "" {
 		t.Skip("development aid")
@@ -19,6 +27,7 @@ func TestC01Triage(t *testing.T) {
 	type ex struct {
 		n    int
 		text string
+		c    qcase.Case
 	}
 	fails := map[string]*ex{}
 	skips := map[string]int{}
@@ -43,9 +52,12 @@ func TestC01Triage(t *testing.T) {
 			}, sig)
 			key := sig + " | " + strings.Join(pick(c.Features), ",")
 			if e := fails[key]; e == nil {
-				fails[key] = &ex{1, fmt.Sprintf("%s\n      graph: %+v", msg, c.Graph)}
+				fails[key] = &ex{1, msg, c}
 			} else {
 				e.n++
+				if len(c.Query) < len(e.c.Query) {
+					e.text, e.c = msg, c
+				}
 			}
 			return
 		}
@@ -72,19 +84,162 @@ func TestC01Triage(t *testing.T) {
 	for k, e := range fails {
 		fl = append(fl, kv{k, e})
 	}
-	sort.Slice(fl, func(i, j int) bool { return fl[i].e.n > fl[j].e.n })
+	sort.Slice(fl, func(i, j int) bool {
+		if fl[i].e.n != fl[j].e.n {
+			return fl[i].e.n > fl[j].e.n
+		}
+		return fl[i].k < fl[j].k
+	})
+	outDir := os.Getenv("VERIF_TRIAGE_OUT")
+	if outDir != "" {
+		_ = os.MkdirAll(outDir, 0o755)
+	}
 	for i, f := range fl {
-		if i >= 80 {
+		if i >= 120 {
 			break
 		}
+		c := minimiseGraph(f.e.c)
+		_, err := oracle(c)
+		text := f.e.text
+		if err != nil {
+			text = err.Error()
+		}
+		if outDir != "" {
+			b, _ := json.MarshalIndent(c, "", " ")
+			_ = os.WriteFile(filepath.Join(outDir, fmt.Sprintf("f%03d.json", i)), b, 0o644)
+		}
+		g, _ := json.Marshal(c.Graph)
 		if os.Getenv("VERIF_TRIAGE") == "short" {
-			lines := strings.SplitN(f.e.text, "\n", 3)
-			t.Logf("FAIL x%d [%s]\n    %s\n    %s", f.e.n, f.k, lines[0], strings.TrimSpace(lines[1]))
+			lines := strings.SplitN(text, "\n", 3)
+			t.Logf("FAIL #%d x%d [%s]\n    %s\n    %s\n    graph: %s", i, f.e.n, f.k, lines[0], strings.TrimSpace(lines[1]), g)
 		} else {
-			t.Logf("FAIL x%d [%s]\n    %s", f.e.n, f.k, f.e.text)
+			t.Logf("FAIL #%d x%d [%s]\n    %s\n      graph: %s", i, f.e.n, f.k, text, g)
 		}
 	}
 	t.Logf("%d failure clusters", len(fl))
+}
+
+// minimiseGraph greedily removes edges, nodes, kinds and properties while the oracle still reports a violation.
+func minimiseGraph(c qcase.Case) qcase.Case {
+	failing := func(g gmodel.Graph) bool {
+		cc := c
+		cc.Graph = g
+		_, err := oracle(cc)
+		return err != nil
+	}
+	g := c.Graph
+	for changed := true; changed; {
+		changed = false
+		for i := 0; i < len(g.Edges); i++ {
+			ng := g
+			ng.Edges = append(append([]gmodel.Edge{}, g.Edges[:i]...), g.Edges[i+1:]...)
+			if failing(ng) {
+				g, changed = ng, true
+				i--
+			}
+		}
+		for i := 0; i < len(g.Nodes); i++ {
+			id := g.Nodes[i].ID
+			ng := g
+			ng.Nodes = append(append([]gmodel.Node{}, g.Nodes[:i]...), g.Nodes[i+1:]...)
+			ng.Edges = nil
+			for _, e := range g.Edges {
+				if e.Start != id && e.End != id {
+					ng.Edges = append(ng.Edges, e)
+				}
+			}
+			if failing(ng) {
+				g, changed = ng, true
+				i--
+			}
+		}
+	}
+	for i := range g.Nodes {
+		if len(g.Nodes[i].Kinds) > 0 {
+			ng := cloneGraph(g)
+			ng.Nodes[i].Kinds = nil
+			if failing(ng) {
+				g = ng
+			}
+		}
+		for k := range g.Nodes[i].Props {
+			ng := cloneGraph(g)
+			delete(ng.Nodes[i].Props, k)
+			if failing(ng) {
+				g = ng
+			}
+		}
+	}
+	for i := range g.Edges {
+		for k := range g.Edges[i].Props {
+			ng := cloneGraph(g)
+			delete(ng.Edges[i].Props, k)
+			if failing(ng) {
+				g = ng
+			}
+		}
+	}
+	c.Graph = g
+	return c
+}
+
+func cloneGraph(g gmodel.Graph) gmodel.Graph {
+	b, _ := json.Marshal(g)
+	var c qcase.Case
+	_ = json.Unmarshal([]byte(`{"graph":`+string(b)+`,"query":""}`), &c)
+	return c.Graph
+}
+
+// TestC01One (development aid): VERIF_CASE=<file.json> [VERIF_QUERY=<text overriding the file's query>]
+// prints the SQL, both results and the verdict for one case.
+func TestC01One(t *testing.T) {
+	file := os.Getenv("VERIF_CASE")
+	if file == "" {
+		t.Skip("development aid")
+	}
+	raw, err := os.ReadFile(file)
+	if err != nil {
+		t.Fatal(err)
+	}
+	var c qcase.Case
+	if err := json.Unmarshal(raw, &c); err != nil {
+		t.Fatal(err)
+	}
+	if q := os.Getenv("VERIF_QUERY"); q != "" {
+		c.Query = q
+	}
+	if os.Getenv("VERIF_MIN") != "" {
+		c = minimiseGraph(c)
+	}
+	g, _ := json.Marshal(c.Graph)
+	t.Logf("query: %s\nparams: %v\ngraph: %s", c.Query, c.Params, g)
+	model, err := xlate.Parse(c.Query)
+	if err != nil {
+		t.Fatalf("parse: %v", err)
+	}
+	mapper := xlate.FixedMapper(c.AllKinds()...)
+	tr, err := xlate.TranslateWith(model, c.Params, mapper)
+	if err != nil {
+		t.Logf("translate: %v", err)
+	} else {
+		t.Logf("SQL: %s\nparams: %v", tr.SQL, tr.Params)
+		kindIDs := map[string]int16{}
+		for k, id := range mapper.KindToID {
+			kindIDs[k.String()] = id
+		}
+		got, out := pgsim.NewDB(c.Graph, kindIDs, 0).Query(tr.SQL, tr.Params)
+		t.Logf("sql outcome: %q", qcase.SQLOutcome(out))
+		for _, r := range got.Rows {
+			t.Logf("  sql row: %s", gmodel.RowKey(r))
+		}
+	}
+	ref, det, err := qcase.Reference(model, c.Graph, c.Params, refOptions)
+	t.Logf("reference: det=%s err=%v", det, err)
+	for _, r := range ref.Rows {
+		t.Logf("  ref row: %s", gmodel.RowKey(r))
+	}
+	info, err := oracle(c)
+	t.Logf("verdict: skip=%q err=%v", info.Skip, err != nil)
 }
 
 // pick keeps the features that usually explain a disagreement.
